@@ -45,6 +45,7 @@ type Session struct {
 	Assumed  map[string]bool // names of assumed contracts / built-ins used (trusted base)
 	covered  sync.Map        // cover groups already shown reachable
 	Inlined  map[string]bool
+	BlenFacts bool // the contract under verification talks about blen: give every content code its length
 }
 
 type StrTable struct {
